@@ -323,22 +323,28 @@ yep:
 #undef __tolower
 }
 
-DEFUN size_t
-__ordtostr(char *buf, size_t bsz)
+DEFUN int
+__ordtostr(char *buf, size_t bsz, size_t nd)
 {
 	char *p = buf;
 
-	if (UNLIKELY(bsz < 2)) {
+	if (UNLIKELY(bsz < 2 || nd == 0U)) {
 		return 0;
 	}
-	/* assumes the actual number is printed in BUF already, 2 digits long */
-	if (UNLIKELY(p[-2] == '1')) {
+	/* the number is the ND digits in front of BUF, discard leading 0s */
+	with (char *np = buf - nd) {
+		size_t nz;
+
+		for (nz = 0U; nz + 1U < nd && np[nz] == '0'; nz++);
+		if (nz) {
+			memmove(np, np + nz, nd - nz);
+			p -= nz;
+			nd -= nz;
+		}
+	}
+	if (UNLIKELY(nd >= 2U && p[-2] == '1')) {
 		/* must be 11, 12, or 13 then */
 		goto teens;
-	} else if (p[-2] == '0') {
-		/* discard */
-		p[-2] = p[-1];
-		p--;
 	}
 	switch (p[-1]) {
 	default:
